@@ -224,7 +224,7 @@ def _stats(sim):
     return f(d), f(i)
 
 
-def run_five(case, res, prop, ref):
+def run_five(case, res, prop, ref, on_sim=None):
     """runs the real five-stage pipeline under the monitors; returns summary dict or None after a violation"""
     from architecture_simulator.simulation.runtime_errors import InstructionExecutionException
 
@@ -236,6 +236,8 @@ def run_five(case, res, prop, ref):
     set_regs(sim, case["regs"])
     preload_mem(sim, case["mem"])
     slog = StoreLog(sim.state.memory)
+    if on_sim:
+        on_sim(sim)
     pen_d = (case.get("dcache") or {}).get("pen", 0)
     pen_i = (case.get("icache") or {}).get("pen", 0)
     # pending register writes of the reference in write-back order
